@@ -687,7 +687,7 @@ fn main() {
     }
 
     // ---- random op sequences, one independent stream per kind ---------------------------------------------
-    let n_seq: u32 = run.scale(250, 4000);
+    let n_seq: u32 = run.scale(1000, 4000);
     std::thread::scope(|sc| {
         for k in &kinds {
             let run = &run;
